@@ -228,7 +228,13 @@ pub fn observe_opts(inst: &mut Inst, u: &Universe, mode: ObsMode, with_traces: b
             }
         }
     }
-    for hash in &u.hashes {
+    // histories with blocks of a thousand transactions mention thousands of hashes: beyond 600 a
+    // deterministic stride is observed (the block objects above still list every transaction)
+    let stride = (u.hashes.len() / 600).max(1);
+    for (i, hash) in u.hashes.iter().enumerate() {
+        if i % stride != 0 {
+            continue;
+        }
         q(inst, "eth_getBlockByHash", json!([hash, false]));
         q(inst, "eth_getBlockTransactionCountByHash", json!([hash]));
         q(inst, "eth_getTransactionByBlockHashAndIndex", json!([hash, 0]));
@@ -237,8 +243,11 @@ pub fn observe_opts(inst: &mut Inst, u: &Universe, mode: ObsMode, with_traces: b
         q(inst, "debug_traceTransaction", json!([hash]));
         q(inst, "brc20_getInscriptionIdByTxHash", json!([hash]));
     }
-    for iid in &u.iids {
-        q(inst, "brc20_getTxReceiptByInscriptionId", json!([iid]));
+    let istride = (u.iids.len() / 600).max(1);
+    for (i, iid) in u.iids.iter().enumerate() {
+        if i % istride == 0 {
+            q(inst, "brc20_getTxReceiptByInscriptionId", json!([iid]));
+        }
     }
     for a in &u.addrs {
         q(inst, "eth_getTransactionCount", json!([a, "latest"]));
